@@ -5,6 +5,8 @@ import (
 	"encoding/binary"
 	"encoding/hex"
 	"fmt"
+
+	"github.com/hujm2023/go-sms-protocol/verifhook"
 )
 
 type Reader struct {
@@ -17,6 +19,7 @@ func NewPacketReader(data []byte) *Reader {
 }
 
 func (p *Reader) readNumeric(data interface{}) {
+	verifhook.Tick("packet.Reader")
 	if p.opError != nil {
 		return
 	}
@@ -51,6 +54,7 @@ func (p *Reader) ReadUint64() uint64 {
 }
 
 func (p *Reader) ReadBytes(receiver []byte) {
+	verifhook.Tick("packet.Reader")
 	if p.opError != nil {
 		return
 	}
@@ -79,6 +83,7 @@ func (p *Reader) Bytes() []byte {
 }
 
 func (p *Reader) ReadCStringN(n int) string {
+	verifhook.Tick("packet.Reader")
 	if p.opError != nil {
 		return ""
 	}
@@ -108,6 +113,7 @@ func (p *Reader) ReadCStringN(n int) string {
 }
 
 func (p *Reader) ReadCStringNWithoutTrim(n int) string {
+	verifhook.Tick("packet.Reader")
 	if p.opError != nil {
 		return ""
 	}
@@ -133,6 +139,7 @@ func (p *Reader) ReadCStringNWithoutTrim(n int) string {
 }
 
 func (p *Reader) ReadCString() string {
+	verifhook.Tick("packet.Reader")
 	if p.opError != nil {
 		return ""
 	}
@@ -150,6 +157,7 @@ func (p *Reader) ReadCString() string {
 }
 
 func (p *Reader) ReadNBytes(n int) []byte {
+	verifhook.Tick("packet.Reader")
 	if p.opError != nil {
 		return nil
 	}
